@@ -156,7 +156,7 @@ def run(tier):
     tscen = [dict(b[0], mode="tween", src="tlc-product") for b in tlc_generate("Gen_SpeedTween.tla", tcfg, "bfs", timeout=600, tag="c05t")]
     tscen = [x for x in tscen if (x["u0"], x["v0n"], x["v0d"]) != (x["u1"], x["v1n"], x["v1d"])]
     if tier == "quick":
-        tscen = [x for k, x in enumerate(sorted(tscen, key=lambda x: json.dumps(x, sort_keys=True))) if k % 4 == seed() % 4]
+        tscen = [x for k, x in enumerate(sorted(tscen, key=lambda x: json.dumps(x, sort_keys=True))) if k % 8 == seed() % 8]
     tsp, ttp = os.path.join(OUT, "c05", "tween_scen.ndjson"), os.path.join(OUT, "c05", "tween_trace.ndjson")
     write_ndjson(tsp, tscen)
     run_kv("c05", tsp, ttp)
